@@ -22,6 +22,8 @@ EXPLANATION = (
   " (READ-COVER) as in C02 for the region-background predicate;"
   " (PUR, IMSC writer) the from_model functions of the IMSC writer never call a mutator on the source document or its elements;"
   " (STATE-alias / STATE-global) no function of the anchored modules mutates a module- or class-level container, rebinds module / class state or mutates a mutable default argument, so a result never depends on earlier calls;"
+  " (DEP-frame, body) as in C01;"
+  " (MEMO-key) as in C03;"
 )
 RULE_TEXT = "per mutator call / mutating call argument, per copy_to variant x field, per early return, per module-level store"
 UNDECIDED = ["equality of cached and uncached results over all documents and times", "equality of repeated calls as values",
